@@ -453,6 +453,9 @@ var c13LongSteps = []string{
 	// steps that no poll interrupts (one unification, one copy, one sort of a long list): seconds, far below the bound,
 	// but long enough for a cancellation to land inside them
 	"length(L, 400000), length(M, 400000), L = M.", "length(L, 400000), copy_term(L, M).", "length(L, 400000), term_variables(L, Vs).", "length(L, 400000), length(M, 400000), L == M.",
+	// a term that shares its subterms 25 levels deep (2^25 leaves as a tree, 25 cells as a graph) given to a control
+	// construct: thorough tier only, an open known finding (call/N expands the graph as a tree, in one step)
+	"dbl(25, X), \\+ X = b.",
 	// an error that unwinds past hundreds of thousands of catch/3 goals that have exited
 	"catch((many_catches(600000), throw(x)), _, true).",
 }
@@ -461,7 +464,7 @@ const c13StepBound = 20 * time.Second // a step bound turned into a generous wal
 
 func c13StepRun(c *c13StepCase) (exp, act string, ok bool) {
 	p := prolog.New(strings.NewReader(""), &bytes.Buffer{})
-	if err := p.Exec("numlist_like(L, H, []) :- L > H, !.\nnumlist_like(L, H, [L|T]) :- L1 is L + 1, numlist_like(L1, H, T).\natom_codes_like(L) :- length(L, N), N > 0.\nmany_catches(0) :- !.\nmany_catches(N) :- catch(true, _, true), N1 is N - 1, many_catches(N1).\n"); err != nil {
+	if err := p.Exec("numlist_like(L, H, []) :- L > H, !.\nnumlist_like(L, H, [L|T]) :- L1 is L + 1, numlist_like(L1, H, T).\natom_codes_like(L) :- length(L, N), N > 0.\ndbl(0, a) :- !.\ndbl(N, f(T, T)) :- N1 is N - 1, dbl(N1, T).\nmany_catches(0) :- !.\nmany_catches(N) :- catch(true, _, true), N1 is N - 1, many_catches(N1).\n"); err != nil {
 		return "program loads", err.Error(), false
 	}
 	// c13_mark/0 follows the long step in the query: it tells when the execution went on after the step. When the
@@ -516,6 +519,12 @@ func c13StepRun(c *c13StepCase) (exp, act string, ok bool) {
 func c13StepWork(w *h.W) {
 	for _, q := range c13LongSteps {
 		instants := []int{20, 200, 1000}
+		if strings.HasPrefix(q, "dbl(") {
+			if !w.Thorough() {
+				continue
+			}
+			instants = []int{1000}
+		}
 		if strings.Contains(q, "many_catches") {
 			if !w.Thorough() {
 				continue // building 600000 exited catch/3 goals takes ~10 s: thorough tier only
